@@ -1455,11 +1455,33 @@ fn main() {
         out.cases.push((format!("detect {}", hex(s.as_bytes())), true));
         out.count("corpus");
     }
-    // nesting depth: 255 `[` are fine, the 256th overflows the u8 counter (ledger D30-b, a C06 matter; modelled as panic)
-    for n in [254usize, 255, 256, 300] {
-        let s = format!("{}h]", "[".repeat(n));
+    // nesting depth (ledger D30-b, fixed by 8b86d6e): the depth counter was a u8 and `brackets += 1` overflowed on the
+    // 256th unclosed `[` (panic under overflow-checks). Replay: 256 x `[` followed by `h]`. Deep nesting is now read as
+    // nesting; the recorded classifications are checked against both the implementation and the model.
+    for (s, documented) in [
+        (format!("{}h]", "[".repeat(254)), "Other"),
+        (format!("{}h]", "[".repeat(255)), "Other"),
+        (format!("{}h]", "[".repeat(256)), "Other"),
+        (format!("{}h]", "[".repeat(300)), "Other"),
+        ("[".repeat(256), "Other"),
+        (format!("{}{}d", "[".repeat(300), "]".repeat(300)), "DateTime"),
+        (format!("{}{}[h]", "[".repeat(256), "]".repeat(256)), "TimeDelta"),
+        (format!("[h{}{}]", "[".repeat(300), "]".repeat(300)), "TimeDelta"),
+    ] {
         check_raw(&s, &mut drv, &mut out);
-        out.count(&format!("nesting_{n}_{}", impl_detect(&s)));
+        let imp = impl_detect(&s);
+        if imp != documented {
+            let sig = if imp == "panic" { "scanner:nesting-overflow" } else { "corpus:recorded-behaviour" };
+            let shown = format!("detect {}   [text: {} characters of deep bracket nesting]", hex(s.as_bytes()), s.len());
+            if imp == "panic" {
+                // a panic of the classifier means no cell of the workbook can be read at all
+                out.fail("impl_vs_spec", sig, &shown, imp, documented, documented);
+            } else {
+                out.fail("impl_vs_model", sig, &shown, imp, documented, "");
+            }
+        }
+        out.cases.push((format!("detect {}", hex(s.as_bytes())), true));
+        out.count("corpus");
     }
     // file-level regression inputs: the D14 witness as a custom format of each container, D15 (xlsb integer RK cells
     // with a date style: every xlsb case writes one), a built-in date id redefined, an id defined twice
